@@ -532,6 +532,15 @@ def cases(tier, seed):
             for backend in ('make', 'ninja'):
                 yield {'index': 1000 + k, 'backend': backend, 'compiler': compiler, 'jobs': 1,
                        'directed': 'object-path:' + c, 'state': st, 'history': hist}
+    # directed: plainly named headers that are #included under spellings that are not
+    # normalised ("../inc/h.h", "./h.h"); each such header renamed, then deleted
+    for sp in ('dotdot', 'dot', 'mixed'):
+        k += 1
+        st, hist = g.directed_repeat(('c', 'c++')[k % 2], '_', g.INCMODES[k % len(g.INCMODES)])
+        st['spell'] = sp
+        for backend in ('make', 'ninja'):
+            yield {'index': 1000 + k, 'backend': backend, 'compiler': 'gcc', 'jobs': 1,
+                   'directed': 'include-spelling:' + sp, 'state': st, 'history': hist}
     for i in range(n):
         rng = core.rng_for(seed, 'c07', i)
         lang = ('c', 'c++')[i % 2] if quick else rng.choice(['c', 'c++'])
@@ -548,6 +557,7 @@ def cases(tier, seed):
         form = PCH_SHARE.get(i % 8)
         if form:
             st = g.add_pch(core.rng_for(seed, 'c07pch', i), st, form, p_special)
+        st['spell'] = [None, 'mixed', None, 'dotdot', None, 'dot', 'mixed', None][(i + seed) % 8]
         nedits = 8 if quick else rng.randint(6, 12)
         hist = g.gen_history(rng, st, nedits, p_special, allow_regen=True)
         for backend in ('make', 'ninja'):
